@@ -2,7 +2,7 @@
 """Shared machinery of the checks: translator + lake build + axiom audit (T-tie and proofs), harness build and the
 differential run against the Lean driver (D-tie), monitor collection (W), evidence, replay files, known findings."""
 import concurrent.futures as cf
-import fcntl, glob, hashlib, json, os, re, shutil, subprocess, sys, time
+import fcntl, glob, hashlib, json, os, re, shutil, subprocess, sys, time, zlib
 
 HERE = os.path.dirname(os.path.abspath(__file__))
 VERIF = os.path.dirname(HERE)
@@ -407,7 +407,7 @@ def cases_for(cfg, tier, seed):
         yield from gen_cases.pair_cases(N, M, tier, (1, 2))
     if tier == 'thorough':
         yield from gen_cases.double_fault_cases(N, M, tier)
-    yield from gen_cases.random_histories(N, M, seed * 1000003 + hash((cfg.fl, N, M, cfg.abits)) % 1000, 60 if tier == 'quick' else 1500)
+    yield from gen_cases.random_histories(N, M, seed * 1000003 + zlib.crc32(repr((cfg.fl, N, M, cfg.abits)).encode()) % 1000, 60 if tier == 'quick' else 1500)
 
 
 def chunked(cases, max_lines=15000):
